@@ -339,7 +339,7 @@ func (vm *VM) callNative(fn *NativeFunction, numVariadic int8, shift StackShift,
 			if i < lastNonVariadic {
 				if i < 2 && typ.In(i) == envType {
 					// Set the path of the file that contains the call.
-					if vm.main {
+					if vm.main && vm.fn != nil {
 						env := vm.env
 						env.mu.Lock()
 						env.callPath = vm.fn.InstructionInfo[vm.pc-1].Path
@@ -600,6 +600,13 @@ func (vm *VM) nextCall() bool {
 			}
 			vm.fp = call.fp
 			vm.callNative(call.cl.Native(), call.numVariadic, StackShift{}, false)
+			if i < len(vm.calls) && vm.calls[i].status == panicked {
+				// A deferred native function, called while panicking, is
+				// returned: continue from the panicked call, that has taken
+				// its place, with the other deferred calls.
+				vm.calls = vm.calls[:i+1]
+				i++
+			}
 		}
 	}
 	return false
